@@ -83,6 +83,9 @@ TWINS = [
       ("            if np.any(np.linalg.eigvals(scale[k]) < 0):", "            if (np.linalg.eigvals(scale[k]) < 0).any():")]),
     ("student-t-rewritten", "gemclus/data/synthetic_data.py",
      [("    X = np.sqrt(df / u) * nx + loc.reshape((1, -1))", "    X = loc.reshape((1, -1)) + nx / np.sqrt(u / df)")]),
+    ("kernelrim-stores-a-copy", "gemclus/linear/_linear_geminis.py", [("        self.input_data_ = X\n", "        self.input_data_ = np.array(X)\n")]),
+    ("kernelrim-predict-via-local", "gemclus/linear/_linear_geminis.py",
+     [("        kernel = self._compute_kernel(X)\n        return self._infer(kernel", "        K_new = self._compute_kernel(X)\n        kernel = K_new\n        return self._infer(kernel")]),
     ("get-gemini-local", "gemclus/mlp/_mlp_geminis.py",
      [("        return MMDGEMINI(ovo=self.ovo, kernel=self.kernel, kernel_params=self.kernel_params)", "        return MMDGEMINI(kernel=self.kernel, ovo=self.ovo, kernel_params=self.kernel_params)")]),
 ]
